@@ -69,6 +69,53 @@ def ctrl_programs():
     return out
 
 
+def tail_shapes():
+    """every block-carrying construct in statement position x every kind of last statement of its block (what a
+    block ends with decides which trailing Pop the compiler keeps, drops or replaces), executed several times in a loop"""
+    def tails(k):
+        return {
+            "expr": [expr(bin_("+", ident("c"), I(k)))],
+            "let": [let("u", I(k))],
+            "let-then-block-expr": [let("u", I(k)), block([expr(bin_("+", ident("c"), ident("u")))])],
+            "block-expr": [block([expr(bin_("+", ident("c"), I(k)))])],
+            "block-let": [block([let("u", I(k))])],
+            "block-empty": [block([])],
+            "block-block-expr": [block([block([expr(I(k))])])],
+            "if-stmt": [expr(if_(bin_("==", ident("c"), I(1)), [expr(I(k))]))],
+            "if-else-stmt": [expr(if_(bin_("==", ident("c"), I(1)), [expr(I(k))], [expr(I(k + 1))]))],
+            "assign": [expr(asg(ident("acc"), bin_("+", ident("acc"), I(k))))],
+            "call": [expr(call("id1", I(k)))],
+            "loop": [let("j", I(0)), while_(bin_("<", ident("j"), I(2)), [expr(asg(ident("j"), bin_("+", ident("j"), I(1))))])],
+            "empty": [],
+        }
+    odd = bin_("==", bin_("%", ident("c"), I(2)), I(1))
+    constructs = {
+        "if-then": lambda t, u: [expr(if_(odd, t))],
+        "if-else:then": lambda t, u: [expr(if_(odd, t, u))],
+        "if-else:else": lambda t, u: [expr(if_(odd, u, t))],
+        "else-if:last": lambda t, u: [expr(if_(bin_("==", ident("c"), I(99)), u, if_(odd, u, t)))],
+        "match-arm": lambda t, u: [expr(match(bin_("%", ident("c"), I(2)), [arm([plit(vint(0))], t), arm([pdef()], u)]))],
+        "match-default": lambda t, u: [expr(match(bin_("%", ident("c"), I(2)), [arm([plit(vint(7))], u), arm([pdef()], t)]))],
+        "block": lambda t, u: [block(t)],
+        "inner-while": lambda t, u: [let("k", I(0)), while_(bin_("<", ident("k"), I(2)), [expr(asg(ident("k"), bin_("+", ident("k"), I(1))))] + t)],
+        "inner-loop": lambda t, u: [let("k", I(0)), loop([expr(if_(bin_(">=", ident("k"), I(2)), [brk()])), expr(asg(ident("k"), bin_("+", ident("k"), I(1))))] + t)],
+        "fn-body-then-return": lambda t, u: [fndef("g", [], t + [ret(I(1))]), expr(call("g"))],
+    }
+    out = []
+    pre = [OBS_DECL, fndef("id1", ["a"], [expr(ident("a"))]), let("acc", I(0))]
+    for cname, mk in constructs.items():
+        for tname, t in tails(3).items():
+            u = tails(5)["expr"]
+            inc = expr(asg(ident("c"), bin_("+", ident("c"), I(1))))
+            body = [inc] + mk(t, u) + [obs(ident("c"))]
+            top = pre + [let("c", I(0)), while_(bin_("<", ident("c"), I(5)), body), obs(I(77))]
+            out.append(("tail construct=%s last=%s at=top" % (cname, tname), top))
+            infn = pre + [fndef("run", [], [let("c", I(0)), while_(bin_("<", ident("c"), I(5)), body), expr(I(9))]),
+                          obs(call("run")), obs(call("run"))]
+            out.append(("tail construct=%s last=%s at=function" % (cname, tname), infn))
+    return out
+
+
 def long_runs(n):
     """loop bodies executed n times (sparse tracing)"""
     out = []
@@ -110,6 +157,10 @@ def run(rep, tier, seed):
     ctrl = []
     for tag, prog in ctrl_programs():
         ctrl.append({"id": "c" + tag, "prog": vmtrace.add_markers(prog), "tag": tag})
+    tails = [{"id": "t" + tag, "prog": vmtrace.add_markers(prog), "tag": tag} for tag, prog in tail_shapes()]
+    if tier == "quick":
+        tails = [t for k, t in enumerate(tails) if "at=top" in t["tag"] or k % 4 == 1]
+    ctrl = ctrl + tails
     recs = vmtrace.record(items + ctrl, widths, mode=1)
     longs = [{"id": "L" + tag, "prog": vmtrace.add_markers(prog), "tag": tag}
              for tag, prog in long_runs(10000 if tier == "thorough" else 2000)]
@@ -139,6 +190,7 @@ def run(rep, tier, seed):
                                "end": {"how": raw.get("how"), "msg": raw.get("msg"), "sp": raw.get("sp")}})
         elif raw.get("how") == "rterror" and "overflow" in (raw.get("msg") or "").lower():
             rep.disagree("stack-overflow-reported %s" % it["tag"], {"src": it["src"], "msg": raw.get("msg")})
+    machine_level(rep, items + ctrl, widths)
     rep.notes.update({"trace_events": events, "marker_events": nmark, "backward_jumps": nback,
                       "sp_effect_drift_events": drift, "programs_without_trace": skipped})
     rep.cov["distinct_nontrivial"] = len({it["src"] for it in items + ctrl + longs if it["id"] in verdicts})
@@ -149,6 +201,27 @@ def run(rep, tier, seed):
     rep.cov["exhaustive"] = False
     rep.sample({"src": items[0]["src"], "trace_head": items[0]["raw"].get("trace", [])[:12]})
     end_to_end(rep, tier)
+
+
+def machine_level(rep, its, widths):
+    """the same executions in lock step with the machine specification (spec/VM.tla via spec/VMRun.tla): after
+    every instruction the operand stack has the height the instruction's meaning gives it"""
+    from .. import vmrun
+    recs = vmrun.from_raw([it for it in its if "raw" in it], widths, with_prog=False)
+    verdicts, res = vmrun.validate(recs)
+    rep.add_tlc(res)
+    rep.cov["traces_validated_against_impl"] += len(recs)
+    counts = {}
+    for it in its:
+        v = verdicts.get(it["id"])
+        if v is None:
+            continue
+        counts[v["v"]] = counts.get(v["v"], 0) + 1
+        if v["v"] == "diverged" and v["why"] in ("sp", "frame depth"):
+            tag = it["tag"].replace(" loop=while", "").replace(" loop=loop", "")
+            rep.disagree("machine-level %s (%s)" % (vmrun.describe(v, it["raw"]), tag.split(" ")[0]),
+                         {"src": it["src"], "verdict": v, "events": it["raw"]["trace"][max(0, v["at"] - 3):v["at"]]})
+    rep.notes["machine_level_verdicts"] = counts
 
 
 def end_to_end(rep, tier):
